@@ -89,12 +89,17 @@ package s2
 // NewShapeIndex and (*ShapeIndex).Add are used through their contracts in vc_state_verif.go (verified under C13).
 
 //@ func ExpandForSubregions(bound Rect) Rect
-//@   assumed "float-only computation on a value; cannot panic"
+//@   assumed "float-only computation on a value; cannot panic; a deterministic function of the rectangle"
+//@   pure
+
+// a decoded loop's sub-region bound is the one derived from its bound (empty and full loops keep the bound itself)
+//@ spec func vcSubBoundOK(l *Loop) bool = vcSame(l.subregionBound, ExpandForSubregions(l.bound)) || vcSame(l.subregionBound, l.bound)
 
 //@ func (l *Loop) initBound()
 //@   assumed "float geometry on decoded coordinates: outside the decoder boundary (DESIGN C15, unverified remainder)"
 //@   requires l != nil
 //@   modifies l.bound, l.subregionBound
+//@   ensures [sub-bound] vcSubBoundOK(l)
 
 //@ func (p *Polygon) initLoopProperties()
 //@   assumed "float geometry and index build on decoded coordinates: outside the decoder boundary"
@@ -187,12 +192,16 @@ package s2
 //@   modifies *p
 //@   ensures [error-propagated] result == nil ==> !vcErrorRaised() || old(vcErrorRaised())
 
+//@ property C15 C09
 //@ func (l *Loop) decode(d *decoder)
 //@   requires l != nil && vcDecoderOK(d)
 //@   modifies *l, d.err, d.buf, d.buf[*]
 //@   ensures [err-kept] vcErrKept(d, old(d.err), old(vcErrorRaised()))
+//@   ensures [sub-bound] d.err == nil ==> vcSubBoundOK(l)
 //@   ensures vcDecoderOK(d)
 //@   loop 1 (rangeindex int): invariant vcDecoderOK(d) && l != nil && vcErrKept(d, old(d.err), old(vcErrorRaised()))
+
+//@ property C15
 
 //@ func (l *Loop) Decode(r io.Reader) error
 //@   requires l != nil && r != nil
@@ -252,11 +261,15 @@ package s2
 //@   loop 2 (i int, numOffCenter int): invariant vcDecoderOK(d) && 0 <= i && vcErrKept(d, old(d.err), old(vcErrorRaised()))
 //@   loop 2: decreases numOffCenter - i
 
+//@ property C15 C09
 //@ func (l *Loop) decodeCompressed(d *decoder, snapLevel int)
 //@   requires l != nil && vcDecoderOK(d) && 0 <= snapLevel && snapLevel <= 255
 //@   modifies *l, d.err, d.buf, d.buf[*]
 //@   ensures [err-kept] vcErrKept(d, old(d.err), old(vcErrorRaised()))
+//@   ensures [sub-bound] d.err == nil ==> vcSubBoundOK(l)
 //@   ensures vcDecoderOK(d)
+
+//@ property C15
 
 //@ func (p *Polygon) decode(d *decoder)
 //@   requires p != nil && vcDecoderOK(d)
